@@ -134,7 +134,33 @@ def run(case, env):
             del events[:]
             rid = w.new_id()
             ctx = {"step": step, "tips": dict(w.tips), "rid": rid}
-            if op in ("commit-master", "commit-light"):
+            if op in ("commit-master", "commit-light") and step.get("stop") == 2:
+                # without updating first: a tree whose basis is behind its
+                # branch (the branch was moved through a checkout or the other
+                # tree) must refuse, and nothing changes
+                where = "master" if op == "commit-master" else "light"
+                basis = w.tree_state(where)["parents"][0]
+                stale = basis != w.tips["master"]
+                w._write(where, "fm", "s%s\n" % rid)
+                ts_before = w.tree_state(where)
+                try:
+                    w.wt(where).commit("m", rev_id=bz.enc(rid),
+                                       timestamp=bz.T0, timezone=0,
+                                       committer=bz.COMMITTER)
+                    check(not stale, "C23/commit-from-out-of-date-tree-accepted",
+                          [ctx, basis])
+                    w.parents[rid] = [w.tips["master"]]
+                    w.tips["master"] = rid
+                except errors.OutOfDateTree:
+                    check(stale, "C23/up-to-date-tree-refused", [ctx, basis])
+                    after = w.observe()
+                    check(after == before,
+                          "C23/refused-commit-changed-a-branch", ctx)
+                    check(w.tree_state(where) == ts_before,
+                          "C23/refused-commit-changed-the-tree", ctx)
+                    labels.add("refused:OutOfDateTree")
+                    w.wt(where).revert(backups=False)
+            elif op in ("commit-master", "commit-light"):
                 where = "master" if op == "commit-master" else "light"
                 if op == "commit-master":
                     mw = w.wt("master")
